@@ -234,6 +234,23 @@ PROPS["C18"] = dict(
     known_reproduces=lambda kf: True,
 )
 
+PROPS["C14"] = dict(
+    suites=[dict(name="http-req", harness="http-req", imports=["HttpCodecCheck"], case_type="bool * list http_req_case",
+                 check="http_req_code", monitor="http_req_code", count_quick=300, count_thorough=10000, nontrivial_bits=3, shrink=False),
+            dict(name="http-resp", harness="http-resp", imports=["HttpRespCheck"], case_type="bool * list resp_case",
+                 check="http_resp_code", monitor="http_resp_code", count_quick=200, count_thorough=5000, nontrivial_bits=3, shrink=False)],
+    rule="http-req: a quarter of the cases are requests written by the library (all events, identifiers all-zero / all-0xff / patterned / random, "
+         "optional fields present or absent, keys with blanks, '&', '=', '%' and non-ASCII) which must be written exactly as the model writes "
+         "them and parse back; the rest are hand-built paths: parameters in random order, identifiers with every byte raw or %-encoded in "
+         "upper/lower hex, integer edge texts (65536, +1, -1, empty, 2^64), unknown and malformed segments (x=, =y, noequals, a=b=c, &&), "
+         "10/21-character identifiers, characters above U+00FF, '%' followed by non-ASCII, wrong locations, missing '?'; compared: the parse "
+         "result field by field; http-resp: announce/scrape/failure replies written by the real writers vs the model byte for byte, and "
+         "parsed back by the real Response::parse_bytes and re-written; non-trivial = a case with both accepted and rejected paths",
+    modelled="request.rs parse_query_string (both kinds), parse_http_get_path, the writers, utils.rs urlencode/urldecode (HttpCodec.v); "
+             "response.rs writers (HttpResp.v) and bencode (Lib/Bencode.v)",
+    assumptions=["urlencoding::{encode,decode} as tables", "httparse and serde_bencode not modelled (serde_bencode reads integers as i64: counters above i64::MAX do not parse back)"],
+)
+
 LEVELS = {
     "C01": dict(
         text="Refinement theorem (Coq, induction over all finite histories, all offsets, any inline capacity): the sequential model of "
@@ -329,6 +346,15 @@ LEVELS["C18"] = dict(
          "original tree violated the property (recorded as fixed findings).",
     design_ref="DESIGN.md §7 C18", technique="Coq arithmetic over source-regenerated constants + translator + in-Coq correspondence of writers",
     note="Trusted: Coq kernel, translator (constants, guards), writer models, harness.")
+
+LEVELS["C14"] = dict(
+    text="Theorems for all field values: the 20-byte identifier decoder accepts exactly the strings that spell exactly 20 bytes (raw or %hh, "
+         "either case) and inverts the encoder; on well-formed segments the position-walking query parser is a fold over the segments; unknown "
+         "keys are ignored; announce (all events, optional fields) and scrape requests written by the library parse back; every reply equals "
+         "the canonical bencoding (sorted keys, compact peers) of its value. Two minor findings are refuted with witnesses (non-ASCII 'hex' "
+         "after %, writer emits requests its parser rejects). Partial: serde_bencode / httparse are only exercised, not modelled.",
+    design_ref="DESIGN.md §7 C14", technique="Coq round-trip / exactness proofs + in-Coq differential check of parser and writers",
+    note="Trusted: Coq kernel, model, harness; urlencoding crate as table; third-party parsers untouched (partial).")
 
 NOT_APPLICABLE = [
     dict(property_id=p, reason="check not built yet in this round (work in progress; planned per DESIGN.md §10)")
